@@ -1,5 +1,6 @@
 import Ruint.Gen.WordsFloat
 import Ruint.Lemmas.FloatTryG
+import Ruint.Lemmas.FloatOld
 
 /-!
 # Tie: the generated `impl TryFrom<f64> for Uint` (`Ruint.Gen.val_try_from_f64`) = the model `Ruint.Float.tryFromF64F true`
@@ -93,15 +94,15 @@ def genMain (BITS value : ℕ) : Option (Except (Nat × Nat × Nat) Nat) :=
 theorem gen_unfold (f bits L x : ℕ) :
     Ruint.Gen.val_try_from_f64 (f + 1) bits L x =
       if isNaN b64 x = true then some (Except.error (2, bits, 0))
-      else if lt b64 x 0 = true then
-        (match Ruint.Gen.val_try_from_f64 f bits L (abs b64 x) with
+      else if lt b64 x zero = true then
+        (match Ruint.Gen.val_try_from_f64 f bits L (Ruint.Float.abs b64 x) with
           | none => none
           | some pv => some (Except.error (1, bits, (2 ^ bits - payload pv) % 2 ^ bits)))
       else if ge b64 x (exp2Int b64 bits) = true then
         (match Ruint.Gen.val_try_from_f64 f bits L (fmod b64 x (exp2Int b64 bits)) with
           | none => none
           | some pv => some (Except.error (0, bits, payload pv)))
-      else if lt b64 x 4602678819172646912 = true then some (Except.ok 0)
+      else if lt b64 x (half b64) = true then some (Except.ok 0)
       else genMain bits x := by
   rw [Ruint.Gen.val_try_from_f64]; rfl
 
@@ -166,7 +167,7 @@ theorem core_eq (bits be mant : ℕ) (hbits : bits + 52 < 2 ^ 64) (h1 : 1023 ≤
       rw [e3]
       unfold tryFromU64 oshl
       by_cases c3 : mant < 2 ^ bits
-      · simp only [c3, decide_true, if_true]
+      · simp only [c3, if_true]
         by_cases c4 : 2 ^ bits ≤ mant * 2 ^ (ex - 52)
         · simp [c4, toRes]
         · simp [c4, toRes]
@@ -197,4 +198,345 @@ theorem genMain_eq (bits x : ℕ) (hbits : bits + 52 < 2 ^ 64) :
     simp only [Bool.not_eq_true] at hn
     simp [hn, toRes]
 
+/-! ## one step of the recursion, given that the recursive calls agree and do not panic -/
+
+theorem step_eq (f bits L x : ℕ) (hbits : bits + 52 < 2 ^ 64)
+    (h1 : isNaN b64 x = false → lt b64 x zero = true →
+      toRes (Ruint.Gen.val_try_from_f64 f bits L (Ruint.Float.abs b64 x)) = tryFromF64F true f bits (Ruint.Float.abs b64 x)
+        ∧ tryFromF64F true f bits (Ruint.Float.abs b64 x) ≠ .panic)
+    (h2 : isNaN b64 x = false → lt b64 x zero = false → ge b64 x (exp2Int b64 bits) = true →
+      toRes (Ruint.Gen.val_try_from_f64 f bits L (fmod b64 x (exp2Int b64 bits)))
+          = tryFromF64F true f bits (fmod b64 x (exp2Int b64 bits))
+        ∧ tryFromF64F true f bits (fmod b64 x (exp2Int b64 bits)) ≠ .panic) :
+    toRes (Ruint.Gen.val_try_from_f64 (f + 1) bits L x) = tryFromF64F true (f + 1) bits x := by
+  rw [gen_unfold, unfold_tryF]
+  by_cases c1 : isNaN b64 x = true
+  · rw [if_pos c1, if_pos c1]; rfl
+  · rw [if_neg c1, if_neg c1]
+    have c1' : isNaN b64 x = false := by simpa using c1
+    by_cases c2 : lt b64 x zero = true
+    · rw [if_pos c2, if_pos c2]
+      obtain ⟨e, np⟩ := h1 c1' c2
+      cases hg : Ruint.Gen.val_try_from_f64 f bits L (Ruint.Float.abs b64 x) with
+      | none => rw [hg] at e; exact absurd e.symm np
+      | some pv =>
+        rw [hg] at e
+        rw [← e]
+        show Res.negative ((2 ^ bits - payload pv) % 2 ^ bits) = Res.negative (wneg bits _)
+        rw [payload_eq]
+        rfl
+    · rw [if_neg c2, if_neg c2]
+      have c2' : lt b64 x zero = false := by simpa using c2
+      by_cases c3 : ge b64 x (exp2Int b64 bits) = true
+      · rw [if_pos c3, if_pos c3]
+        obtain ⟨e, np⟩ := h2 c1' c2' c3
+        cases hg : Ruint.Gen.val_try_from_f64 f bits L (fmod b64 x (exp2Int b64 bits)) with
+        | none => rw [hg] at e; exact absurd e.symm np
+        | some pv =>
+          rw [hg] at e
+          rw [← e]
+          show Res.tooLarge (payload pv) = Res.tooLarge _
+          rw [payload_eq]
+          rfl
+      · rw [if_neg c3, if_neg c3]
+        by_cases c4 : lt b64 x (half b64) = true
+        · rw [if_pos c4, if_pos c4]; rfl
+        · rw [if_neg c4, if_neg c4]
+          exact genMain_eq bits x hbits
+
+/-! ## arguments of the recursive calls -/
+
+/-- a `u64` pattern of a finite value that is not below zero. -/
+def Good (y : ℕ) : Prop :=
+  y < 2 ^ 64 ∧ ∃ neg m e, decode b64 y = .fin neg m e ∧ (neg = false ∨ m = 0)
+
+theorem good_facts (bits y : ℕ) (h : Good y) :
+    isNaN b64 y = false ∧ lt b64 y zero = false ∧ tryFromF64 bits y ≠ .panic := by
+  obtain ⟨h64, neg, m, e, hd, hnn⟩ := h
+  refine ⟨isNaN_of_fin y m neg e hd, ?_, ?_⟩
+  · rw [← Bool.not_eq_true, lt_zero_iff y m neg e hd]
+    rintro ⟨a, b⟩
+    rcases hnn with h | h
+    · rw [h] at a; exact absurd a (by simp)
+    · exact b h
+  · obtain ⟨a, b⟩ := tryFromF64_fin bits y m neg e h64 hd hnn
+    rcases Nat.lt_or_ge (floorHalf m e) (2 ^ bits) with c | c
+    · rw [a c]; simp
+    · obtain ⟨w, hw⟩ := b c
+      rw [hw]; simp
+
+/-- the modulus `2^BITS` as an `f64` is a power of two or `+∞`. -/
+theorem decode_modulus (bits : ℕ) :
+    (bits ≤ 1023 ∧ exp2Int b64 bits = pow2 (bits : ℤ)
+        ∧ decode b64 (exp2Int b64 bits) = .fin false (2 ^ 52) ((bits : ℤ) - 52))
+      ∨ (1023 < bits ∧ decode b64 (exp2Int b64 bits) = .inf false) := by
+  rcases Nat.lt_or_ge 1023 bits with hb | hb
+  · right; rw [exp2Int_inf bits hb]; exact ⟨hb, decode_inf64⟩
+  · left; rw [exp2Int_eq bits hb]; exact ⟨hb, rfl, decode_pow2 bits (by omega) (by omega)⟩
+
+/-- a leaf of the recursion: NaN, or a finite non-negative value below the modulus. -/
+theorem leaf_eq (f bits L y : ℕ) (hbits : bits + 52 < 2 ^ 64)
+    (h : isNaN b64 y = true ∨ (Good y ∧ ge b64 y (exp2Int b64 bits) = false)) :
+    toRes (Ruint.Gen.val_try_from_f64 (f + 1) bits L y) = tryFromF64F true (f + 1) bits y
+      ∧ tryFromF64F true (f + 1) bits y ≠ .panic := by
+  constructor
+  · apply step_eq f bits L y hbits
+    · intro a b
+      rcases h with h | ⟨h, _⟩
+      · rw [h] at a; exact absurd a (by simp)
+      · rw [(good_facts bits y h).2.1] at b; exact absurd b (by simp)
+    · intro a _ c
+      rcases h with h | ⟨_, h⟩
+      · rw [h] at a; exact absurd a (by simp)
+      · rw [h] at c; exact absurd c (by simp)
+  · rcases h with h | ⟨hg, hge⟩
+    · rw [unfold_tryF, if_pos h]; simp
+    · obtain ⟨a, b, c⟩ := good_facts bits y hg
+      have e : tryFromF64F true (f + 1) bits y = tryFromF64 bits y := by
+        unfold tryFromF64
+        rw [unfold_tryF, unfold_tryF, a, b, hge]
+        simp only [Bool.false_eq_true, if_false]
+      rw [e]; exact c
+
+/-! ### `|x|` -/
+
+theorem decode_abs (x : ℕ) :
+    decode b64 (Ruint.Float.abs b64 x) =
+      (match decode b64 x with | .nan => .nan | .inf _ => .inf false | .fin _ m e => .fin false m e) := by
+  have hs : b64.signBit = 2 ^ 63 := by decide
+  have hE : b64.emaxB = 2047 := by decide
+  have hq : b64.qmin = -1074 := by decide
+  have hmb : b64.mb = 52 := rfl
+  have heb : b64.eb = 11 := rfl
+  unfold Ruint.Float.abs decode
+  simp only [hs, hE, hq, hmb, heb]
+  have f1 : (x % 2 ^ 63) % 2 ^ 52 = x % 2 ^ 52 := by omega
+  have f2 : ((x % 2 ^ 63) / 2 ^ 52) % 2 ^ 11 = (x / 2 ^ 52) % 2 ^ 11 := by omega
+  have f3 : ((x % 2 ^ 63) / 2 ^ (52 + 11)) % 2 = 0 := by omega
+  rw [f1, f2, f3]
+  split_ifs <;> simp
+
+theorem abs_facts (x : ℕ) (hn : isNaN b64 x = false) :
+    isNaN b64 (Ruint.Float.abs b64 x) = false ∧ lt b64 (Ruint.Float.abs b64 x) zero = false ∧ Ruint.Float.abs b64 x < 2 ^ 64 := by
+  have hs : b64.signBit = 2 ^ 63 := by decide
+  have hda := decode_abs x
+  refine ⟨?_, ?_, ?_⟩
+  · unfold isNaN at hn ⊢
+    rw [hda]
+    cases hd : decode b64 x with
+    | nan => rw [hd] at hn; simp at hn
+    | inf n => rfl
+    | fin n m e => rfl
+  · cases hd : decode b64 x with
+    | nan => unfold isNaN at hn; rw [hd] at hn; simp at hn
+    | inf n =>
+      rw [hd] at hda
+      unfold lt zero; rw [hda, decode_zero]; rfl
+    | fin n m e =>
+      rw [hd] at hda
+      rw [← Bool.not_eq_true, lt_zero_iff _ m false e hda]
+      simp
+  · unfold Ruint.Float.abs; rw [hs]
+    have : x % 2 ^ 63 < 2 ^ 63 := Nat.mod_lt _ (by norm_num)
+    omega
+
+/-! ### `x % modulus` -/
+
+/-- an integer multiple `r·2^(K-52)`, `r < 2^52`, of the modulus' last place is exactly representable and
+    below `2^K`. -/
+theorem rne_small (r K : ℕ) (hK : K ≤ 1023) (hr : r < 2 ^ 52) :
+    rne b64 false r ((K : ℤ) - 52) < 2 ^ 64 ∧
+      ∃ m' e', decode b64 (rne b64 false r ((K : ℤ) - 52)) = .fin false m' e' ∧
+        ge b64 (rne b64 false r ((K : ℤ) - 52)) (pow2 (K : ℤ)) = false := by
+  have hs : sgn b64 false = 0 := by simp [sgn]
+  unfold rne
+  rw [hs, Nat.zero_add]
+  rcases Nat.eq_zero_or_pos r with h0 | hpos
+  · subst h0
+    have : rneMag b64 0 ((K : ℤ) - 52) = 0 := by simp [rneMag]
+    rw [this]
+    refine ⟨by norm_num, 0, -1074, decode_zero, ?_⟩
+    rw [← Bool.not_eq_true, ge_pow2_iff 0 0 (-1074) K decode_zero (by omega) (by omega)]
+    have : 0 < 2 ^ ((K : ℤ) - -1074).toNat := by positivity
+    omega
+  · have hL1 := bitLen_pos hpos
+    have hL2 : bitLen r ≤ 52 := bitLen_le_of_lt hr
+    have hq : b64.qmin = -1074 := by decide
+    have hmb : b64.mb = 52 := rfl
+    have hinf : b64.infBits = 2047 * 2 ^ 52 := by decide
+    have hn := rneMag_normal b64 r ((K : ℤ) - 52) hpos (by rw [hq, hmb]; omega)
+    simp only [hmb, hq, hinf] at hn
+    have cL : bitLen r ≤ 52 + 1 := by omega
+    rw [if_pos cL] at hn
+    obtain ⟨L, hL⟩ : ∃ L, L = bitLen r := ⟨_, rfl⟩
+    rw [← hL] at hn hL1 hL2
+    obtain ⟨b1, b2⟩ := bitLen_bounds hpos
+    rw [← hL] at b1 b2
+    have hMr1 : 2 ^ 52 ≤ r * 2 ^ (52 + 1 - L) := by
+      have : 52 = (L - 1) + (52 + 1 - L) := by omega
+      calc 2 ^ 52 = 2 ^ (L - 1) * 2 ^ (52 + 1 - L) := by rw [← pow_add, ← this]
+        _ ≤ r * 2 ^ (52 + 1 - L) := Nat.mul_le_mul_right _ b1
+    have hMr2 : r * 2 ^ (52 + 1 - L) < 2 ^ 53 := by
+      have : 53 = L + (52 + 1 - L) := by omega
+      calc r * 2 ^ (52 + 1 - L) < 2 ^ L * 2 ^ (52 + 1 - L) := Nat.mul_lt_mul_of_pos_right b2 (by positivity)
+        _ = 2 ^ 53 := by rw [← pow_add, ← this]
+    have hMr3 : r * 2 ^ (52 + 1 - L) < 2 ^ 52 * 2 ^ (52 + 1 - L) :=
+      Nat.mul_lt_mul_of_pos_right hr (by positivity)
+    obtain ⟨Q, hQ⟩ : ∃ Q, Q = ((K : ℤ) - 52 + (L : ℤ) - ((52 + 1 : ℕ) : ℤ) - -1074).toNat := ⟨_, rfl⟩
+    rw [← hQ] at hn
+    have hQ1 : Q ≤ 2044 := by omega
+    obtain ⟨Mr, hMr⟩ : ∃ Mr, Mr = r * 2 ^ (52 + 1 - L) := ⟨_, rfl⟩
+    rw [← hMr] at hn hMr1 hMr2 hMr3
+    rw [if_neg (by omega)] at hn
+    rw [hn]
+    have hdec : decode b64 (Q * 2 ^ 52 + Mr) = .fin false Mr (-1074 + (Q : ℤ)) := by
+      have := decode_assembled b64 b64_ok Q Mr (by rw [hmb]; exact hMr1) (by rw [hmb]; omega)
+        (by rw [hinf, hmb]; omega)
+      rw [hmb, hq] at this
+      rcases this with ⟨_, h⟩ | ⟨h, _⟩
+      · exact h
+      · omega
+    refine ⟨by omega, Mr, -1074 + (Q : ℤ), hdec, ?_⟩
+    rw [← Bool.not_eq_true, ge_pow2_iff _ Mr _ K hdec (by omega) (by omega), not_le]
+    have e1 : ((-1074 + (Q : ℤ)) - (K : ℤ)).toNat = 0 := by omega
+    have e2 : ((K : ℤ) - (-1074 + (Q : ℤ))).toNat = 52 + (52 + 1 - L) := by omega
+    rw [e1, e2, pow_zero, Nat.mul_one, pow_add]
+    exact hMr3
+
+/-- the argument `x % modulus` of the second recursive call is NaN (`x = +∞`) or lies in `[0, modulus)`. -/
+theorem fmod_leaf (bits y : ℕ) (hn : isNaN b64 y = false) (hl : lt b64 y zero = false)
+    (hg : ge b64 y (exp2Int b64 bits) = true) :
+    isNaN b64 (fmod b64 y (exp2Int b64 bits)) = true ∨
+      (Good (fmod b64 y (exp2Int b64 bits))
+        ∧ ge b64 (fmod b64 y (exp2Int b64 bits)) (exp2Int b64 bits) = false) := by
+  have hnan : isNaN b64 b64.nanBits = true := by decide +kernel
+  cases hd : decode b64 y with
+  | nan => unfold isNaN at hn; rw [hd] at hn; simp at hn
+  | inf n =>
+    left
+    have : fmod b64 y (exp2Int b64 bits) = b64.nanBits := by
+      unfold fmod; rw [hd]
+      rcases decode_modulus bits with ⟨_, _, h⟩ | ⟨_, h⟩ <;> rw [h]
+    rw [this]; exact hnan
+  | fin n m e =>
+    rcases decode_modulus bits with ⟨hb, hE, hm⟩ | ⟨hb, hm⟩
+    · rw [hE] at hg hm ⊢
+      by_cases hm0 : m = 0
+      · exfalso
+        subst hm0
+        unfold ge at hg
+        rw [hd, hm] at hg
+        have hz : ∀ k : ℕ, sInt n (0 * k) = 0 := by intro k; cases n <;> simp [sInt]
+        simp only [Dec.le, hz, decide_eq_true_eq] at hg
+        have : (0 : ℤ) < sInt false (2 ^ 52 * 2 ^ ((bits : ℤ) - 52 - min ((bits : ℤ) - 52) e).toNat) := by
+          simp only [sInt, Bool.false_eq_true, if_false]; positivity
+        omega
+      · have hnf : n = false := by
+          cases n
+          · rfl
+          · have := (lt_zero_iff y m true e hd).mpr ⟨rfl, hm0⟩
+            rw [hl] at this; simp at this
+        subst hnf
+        have hge := (ge_pow2_iff y m e bits hd (by omega) (by omega)).mp hg
+        obtain ⟨h53, _⟩ := fin_lt_max y m false e hd
+        have he : (bits : ℤ) - 52 ≤ e := by
+          by_contra hc
+          push Not at hc
+          have a1 : (e - (bits : ℤ)).toNat = 0 := by omega
+          rw [a1, pow_zero, Nat.mul_one] at hge
+          have : 2 ^ 53 ≤ 2 ^ ((bits : ℤ) - e).toNat := Nat.pow_le_pow_right (by norm_num) (by omega)
+          omega
+        right
+        have hf : fmod b64 y (pow2 (bits : ℤ)) =
+            rne b64 false ((m * 2 ^ (e - ((bits : ℤ) - 52)).toNat) % 2 ^ 52) ((bits : ℤ) - 52) := by
+          unfold fmod
+          rw [hd, hm]
+          simp only
+          rw [if_neg (by positivity), min_eq_right he]
+          simp
+        rw [hf]
+        obtain ⟨a, m', e', b, c⟩ := rne_small _ bits hb (Nat.mod_lt _ (by positivity))
+        exact ⟨⟨a, false, m', e', b, Or.inl rfl⟩, c⟩
+    · exfalso
+      unfold ge at hg
+      rw [hd, hm] at hg
+      simp [Dec.le] at hg
+
+/-! ## the recursion: depth at most 3 -/
+
+/-- second level: an argument that is not NaN and not below zero. -/
+theorem mid_eq (f bits L y : ℕ) (hbits : bits + 52 < 2 ^ 64) (hn : isNaN b64 y = false)
+    (hl : lt b64 y zero = false) (h64 : y < 2 ^ 64) :
+    toRes (Ruint.Gen.val_try_from_f64 (f + 2) bits L y) = tryFromF64F true (f + 2) bits y
+      ∧ tryFromF64F true (f + 2) bits y ≠ .panic := by
+  by_cases hg : ge b64 y (exp2Int b64 bits) = true
+  · have hleaf := leaf_eq f bits L _ hbits (fmod_leaf bits y hn hl hg)
+    constructor
+    · exact step_eq (f + 1) bits L y hbits
+        (fun _ b => by rw [hl] at b; exact absurd b (by simp)) (fun _ _ _ => hleaf)
+    · rw [unfold_tryF, hn, hl, hg]; simp
+  · have hg' : ge b64 y (exp2Int b64 bits) = false := by simpa using hg
+    apply leaf_eq (f + 1) bits L y hbits
+    right
+    refine ⟨⟨h64, ?_⟩, hg'⟩
+    cases hd : decode b64 y with
+    | nan => unfold isNaN at hn; rw [hd] at hn; simp at hn
+    | inf n =>
+      exfalso
+      cases n
+      · apply hg
+        unfold ge; rw [hd]
+        rcases decode_modulus bits with ⟨_, _, h⟩ | ⟨_, h⟩ <;> rw [h] <;> rfl
+      · have : lt b64 y zero = true := by unfold lt zero; rw [hd, decode_zero]; rfl
+        rw [this] at hl; simp at hl
+    | fin n m e =>
+      refine ⟨n, m, e, rfl, ?_⟩
+      by_contra hc
+      push Not at hc
+      have hnt : n = true := by cases n <;> simp_all
+      have := (lt_zero_iff y m n e hd).mpr ⟨hnt, hc.2⟩
+      rw [hl] at this; simp at this
+
+/-- with fuel `≥ 3` the generated function and the model agree on every input. -/
+theorem top_eq (f bits L x : ℕ) (hbits : bits + 52 < 2 ^ 64) :
+    toRes (Ruint.Gen.val_try_from_f64 (f + 3) bits L x) = tryFromF64F true (f + 3) bits x := by
+  apply step_eq (f + 2) bits L x hbits
+  · intro a _
+    obtain ⟨p, q, r⟩ := abs_facts x a
+    exact mid_eq f bits L _ hbits p q r
+  · intro a b c
+    exact leaf_eq (f + 1) bits L _ hbits (fmod_leaf bits x a b c)
+
+/-- **generated `try_from(f64)` = model**, at fuel `0` and at every fuel `≥ 3` (the source's recursion depth).
+    The hypothesis on `f` cannot be dropped: at `f = 1` (`x = -1.0`) and `f = 2` (`x = -2^70`, `bits = 64`)
+    the generated function runs out of fuel in a recursive call and propagates the failure, the model's
+    `| _ => 0` swallows it. -/
+theorem try_from_f64F_eq (bits L : ℕ) (hbits : bits + 52 < 2 ^ 64) (f x : ℕ) (hf : f = 0 ∨ 3 ≤ f) :
+    toRes (Ruint.Gen.val_try_from_f64 f bits L x) = Ruint.Float.tryFromF64F true f bits x := by
+  rcases hf with hf | hf
+  · subst hf
+    rw [Ruint.Gen.val_try_from_f64, tryFromF64F]; rfl
+  · obtain ⟨g, rfl⟩ : ∃ g, f = g + 3 := ⟨f - 3, by omega⟩
+    exact top_eq g bits L x hbits
+
+theorem try_from_f64_eq (bits L x : ℕ) (hbits : bits + 52 < 2 ^ 64) :
+    toRes (Ruint.Gen.val_try_from_f64 3 bits L x) = Ruint.Float.tryFromF64 bits x :=
+  top_eq 0 bits L x hbits
+
+/-- the original fuel-generic statement is false at fuel 1 and fuel 2 (kernel-checked witnesses). -/
+theorem try_from_f64F_fuel1_witness :
+    toRes (Ruint.Gen.val_try_from_f64 1 64 1 0xBFF0000000000000) = .panic
+      ∧ tryFromF64F true 1 64 0xBFF0000000000000 = .negative 0 := by
+  constructor <;> decide +kernel
+
+theorem try_from_f64F_fuel2_witness :
+    toRes (Ruint.Gen.val_try_from_f64 2 64 1 0xC450000000000000) = .panic
+      ∧ tryFromF64F true 2 64 0xC450000000000000 = .negative 0 := by
+  constructor <;> decide +kernel
+
 end Ruint.GenFloat
+
+#print axioms Ruint.GenFloat.try_from_f64F_eq
+#print axioms Ruint.GenFloat.try_from_f64_eq
+#print axioms Ruint.GenFloat.try_from_f64F_fuel1_witness
+#print axioms Ruint.GenFloat.try_from_f64F_fuel2_witness
